@@ -103,6 +103,14 @@ def apply_op(dc, obj, cache, kind, op, maxlen=None):
             obj.close()
             dc.Cache(obj.directory).close()
             return None
+        if name == 'reset':
+            return obj.reset(a[0], a[1])
+        if name == 'peek':
+            return obj.peek(prefix=a[0], side=a[1])
+        if name == 'peekitem':
+            return obj.peekitem(last=a[0])
+        if name == 'get':
+            return obj.get(a[0])
     elif kind == 'deque':
         if name in ('append', 'appendleft'):
             return getattr(obj, name)(a[0])
@@ -120,6 +128,9 @@ def apply_op(dc, obj, cache, kind, op, maxlen=None):
             return None
         if name == 'remove':
             return obj.remove(a[0])
+        if name == 'maxlen':
+            obj.maxlen = a[0]
+            return None
         if name == 'block':
             with obj.transact():
                 return [apply_op(dc, obj, cache, kind, sub) for sub in op[1]]
@@ -152,7 +163,7 @@ def apply_op(dc, obj, cache, kind, op, maxlen=None):
 
 NON_ATOMIC = {
     'cache': {'clear', 'evict', 'expire', 'cull'},
-    'deque': {'clear', 'extend', 'extendleft', 'rotate', 'reverse'},
+    'deque': {'clear', 'extend', 'extendleft', 'rotate', 'reverse'},   # (maxlen change trims inside one block: atomic)
     'index': {'clear', 'update'},
 }
 
